@@ -32,6 +32,7 @@ var generators = map[string]genFunc{
 	"pause":   GenPause,
 	"rollout": GenRollout,
 	"own":     GenOwn,
+	"health":  GenHealth,
 }
 
 type runSummary struct {
@@ -170,6 +171,32 @@ func TestRouting(t *testing.T) {
 		RunRoutingPlan(t, first+i, &p, rec, scratch, cert, key)
 		sum.Scenarios++
 	}
+	rec.Flush()
+	sum.Events = rec.Counts
+	sum.WallS = time.Since(start).Seconds()
+	b, _ := json.MarshalIndent(&sum, "", " ")
+	os.WriteFile(filepath.Join(out, "summary.json"), b, 0o644)
+	os.RemoveAll(scratch)
+}
+
+// TestRolloutFn: the rollout decision for many cookie values at every percentage (C10).
+func TestRolloutFn(t *testing.T) {
+	out := os.Getenv("VERIF_OUT")
+	if out == "" {
+		t.Skip("VERIF_OUT not set")
+	}
+	scratch := filepath.Join(out, "scratch")
+	os.MkdirAll(scratch, 0o755)
+	f, err := os.Create(filepath.Join(out, "trace.ndjson"))
+	if err != nil {
+		t.Fatal(err)
+	}
+	defer f.Close()
+	rec := NewRecorder(f)
+	start := time.Now()
+	sum := runSummary{Family: "rolloutfn"}
+	RunRollout(t, envInt("VERIF_FIRST", 0), int64(envInt("VERIF_SEED", 1)), envInt("VERIF_N", 200), envInt("VERIF_EXTREME", 2000000), rec, scratch)
+	sum.Scenarios = 1
 	rec.Flush()
 	sum.Events = rec.Counts
 	sum.WallS = time.Since(start).Seconds()
